@@ -4,9 +4,11 @@ Model of `config/endpoint_policy_tree.go` (`BuildEndpointPolicyTree`, `checkForD
 selection functions of `runner/plugin_dispatcher.go` (`getRemedies`, `getDiagnoses`, `shouldDiagnose`).
 Core Lean only.
 
-The Go tree stores `*map[Method]EndpointPolicy`.  `existingPolicy := *lookup.Value` copies the map
-HEADER, so the map found by the lookup is mutated in place and the very same map is then inserted at the
-new URL.  Map identity is therefore explicit here: tree values are indices into `store`.
+The Go tree stores `*map[Method]EndpointPolicy`; maps are shared by reference, so map identity is explicit
+here: tree values are indices into `store`.  This is the code AFTER the repairs fixes/F13a.patch (a declared
+URL is merged only into the map registered for its OWN URL in the side table `policiesByURL`, no longer into
+whatever map a lookup of the new URL lands on) and fixes/F13e.patch (the same method+URL declared again is
+appended to the existing policy instead of replacing it).
 -/
 namespace LunarVerif.C13
 open LunarVerif.UrlTree
@@ -31,10 +33,16 @@ structure Endpoint where
   diags : List Diag
 deriving DecidableEq, Repr
 
-/-- `EndpointPolicy`; `src` = the declaring endpoint (URL, Remedies, Diagnosis are copied from it). -/
+/-- `EndpointPolicy`: the declarations (same method, same URL) merged into it, oldest first. -/
 structure Policy where
-  src : Endpoint
+  srcs : List Endpoint
 deriving DecidableEq, Repr
+
+/-- `EndpointPolicy.URL`: the URL text of the latest declaration. -/
+def Policy.url (p : Policy) : String := (p.srcs.getLast?.map (·.url)).getD ""
+/-- `EndpointPolicy.Remedies`: in the order they are written. -/
+def Policy.remedies (p : Policy) : List Remedy := p.srcs.flatMap (·.remedies)
+def Policy.diags (p : Policy) : List Diag := p.srcs.flatMap (·.diags)
 
 /-- `map[Method]EndpointPolicy` -/
 abbrev PMap := List (String × Policy)
@@ -50,12 +58,21 @@ def PMap.set (m : PMap) (method : String) (p : Policy) : PMap :=
   | [] => [(method, p)]
   | (k, q) :: rest => if k = method then (method, p) :: rest else (k, q) :: PMap.set rest method p
 
+/-- `policiesByURL` (keyed by the trimmed URL text in Go, by the split parts here). -/
+abbrev UrlIndex := List (List Part × Nat)
+
+def UrlIndex.find? (ix : UrlIndex) (ps : List Part) : Option Nat :=
+  match ix with
+  | [] => none
+  | (k, i) :: rest => if k = ps then some i else UrlIndex.find? rest ps
+
 structure PTree where
   tree : Tree Nat
   store : List PMap
+  byUrl : UrlIndex := []
 deriving Repr
 
-def PTree.empty : PTree := ⟨[], []⟩
+def PTree.empty : PTree := ⟨[], [], []⟩
 
 inductive BuildErr where
   | duplicate                    -- checkForDuplicates
@@ -68,7 +85,7 @@ def existingRemedies (pt : PTree) (e : Endpoint) : List Remedy :=
   match (lookupParts pt.tree e.parts).value with
   | none => []
   | some i => match (pt.store.getD i []).find? e.method with
-    | some p => p.src.remedies
+    | some p => p.remedies
     | none => []
 
 /-- `checkForDuplicates`: a new remedy has the (defined) type of an existing one. -/
@@ -81,19 +98,22 @@ def setStore (store : List PMap) (i : Nat) (m : PMap) : List PMap := store.set i
 def addEndpoint (pt : PTree) (e : Endpoint) : Except BuildErr PTree :=
   if isDuplicate pt e then .error .duplicate
   else
-    -- `Lookup(endpoint.URL)`: the declared URL is looked up AS IF it were a request URL
-    match (lookupParts pt.tree e.parts).value with
+    match pt.byUrl.find? e.parts with
     | some i =>
-      -- mutate THAT map, then insert the same map (same identity) at the new URL
-      let store' := setStore pt.store i ((pt.store.getD i []).set e.method ⟨e⟩)
+      -- the map of this very URL: add the method (append when the method is already there), re-insert it
+      let old := pt.store.getD i []
+      let pol : Policy := match old.find? e.method with
+        | some prev => ⟨prev.srcs ++ [e]⟩
+        | none => ⟨[e]⟩
+      let store' := setStore pt.store i (old.set e.method pol)
       match insertParts pt.tree e.parts i true with
       | .error err => .error (.insert err)
-      | .ok t' => .ok ⟨t', store'⟩
+      | .ok t' => .ok ⟨t', store', pt.byUrl⟩
     | none =>
       let i := pt.store.length
       match insertParts pt.tree e.parts i true with
       | .error err => .error (.insert err)
-      | .ok t' => .ok ⟨t', pt.store ++ [[(e.method, ⟨e⟩)]]⟩
+      | .ok t' => .ok ⟨t', pt.store ++ [[(e.method, ⟨[e]⟩)]], pt.byUrl ++ [(e.parts, i)]⟩
 
 def buildFrom (pt : PTree) : List Endpoint → Except BuildErr PTree
   | [] => .ok pt
@@ -128,7 +148,7 @@ deriving Repr
 def getRemedies (pt : PTree) (g : Globals) (method : String) (us : List Part) : List String × List String :=
   let s := select pt method us
   ((match s.policy with
-    | some p => (p.src.remedies.filter (·.enabled)).map (·.name)
+    | some p => (p.remedies.filter (·.enabled)).map (·.name)
     | none => []),
    (g.remedies.filter (·.enabled)).map (·.name))
 
@@ -140,14 +160,14 @@ def dispatchFirst (pt : PTree) (g : Globals) (method : String) (us : List Part) 
 def getDiagnoses (pt : PTree) (g : Globals) (method : String) (us : List Part) : List String × List String :=
   let s := select pt method us
   ((match s.policy with
-    | some p => (p.src.diags.filter (·.enabled)).map (·.name)
+    | some p => (p.diags.filter (·.enabled)).map (·.name)
     | none => []),
    (g.diags.filter (·.enabled)).map (·.name))
 
 def shouldDiagnose (pt : PTree) (g : Globals) (method : String) (us : List Part) : Bool :=
   g.diags.any (·.enabled) ||
   (match (select pt method us).policy with
-   | some p => p.src.diags.any (·.enabled)
+   | some p => p.diags.any (·.enabled)
    | none => false)
 
 end LunarVerif.C13
